@@ -159,7 +159,7 @@ pub fn apply_logical(kind: &'static str, m: &mut Message, cx: &FaultCtx, t: &mut
     let req_before = requirements_met(m, &cx.node.cfg);
     let folded = folds(&m.logical, cx.node.cfg.fold);
     let mut note = String::new();
-    let mut component: &'static str = "other";
+    let component: &'static str;
     {
         let l = &mut m.logical;
         let a = &mut m.auth;
